@@ -71,8 +71,8 @@ def main():
         m = re.search(r"(crates/[\w/.-]+/(?:tests|examples|src/[\w/]+))/?\s", readme)
         if m:
             placements.append((f, m.group(1).rstrip("/") + "/" + f, "copy"))
-    extra = re.findall(r"^\s*((?:echo|printf) .*>>\s*crates/\S+)\s*$", readme, re.M)
-    cmds = re.findall(r"^\s*(cargo (?:test|run) [^\n`]*)$", readme, re.M)
+    extra = re.findall(r"((?:echo|printf) [^`\n]*>>\s*crates/[\w/.-]+)", readme)
+    cmds = re.findall(r"^\s*(?:[A-Z_]+=\S+\s+)*(cargo (?:test|run) [^\n`]*)$", readme, re.M)
     res["placements"] = placements
     res["demo_cmd"] = cmds[0] if cmds else None
     if not placements or not cmds:
